@@ -47,3 +47,13 @@ package zrpc
 //@   property C07
 //@   ensures result != nil && fresh(result) && fresh(result.singleFlight)
 //@   allocates
+
+// C02 (F17, repaired): the interceptors - among them the shedding interceptor, whose shedder reads the package switch once,
+// when it is built - are set up only after the configuration's SetUp has run (SetUp is what turns shedding off for the
+// non-production modes); rest.NewServer has the same clause
+//@ func NewServer
+//@   property C02
+//@   ghost at entry: su = false
+//@   ghost at after SetUp#0: su = true
+//@   call setupUnaryInterceptors#0: assert su
+//@   call setupStreamInterceptors#0: assert su
